@@ -19,6 +19,12 @@
 (* last step violates a clause in the model, up to that step.                                      *)
 EXTENDS EditingSys, Json, IOUtils
 
+\* TLC orders record fields by the order in which their names are first met while parsing, starting with this
+\* (root) module.  Editing compares objects of different kinds ([k, v], [k, n], [k, d, c, z], ...): the kind field
+\* k must be compared before the payload fields, so that values of different kinds never compare payloads of
+\* different types (which TLC refuses to evaluate).  Keep this first mention of the object fields here.
+KindFirst_MC_Editing(o) == <<o.k, o.n, o.v, o.d, o.c, o.z>>
+
 CONSTANTS Starts,     \* set of start-document parameter records (see St)
           Devs,       \* switch records explored (Editing!DevAsIs, Editing!DevSeeded)
           Allowed,    \* violation tags a step may produce
